@@ -669,6 +669,18 @@ pub fn c14(tier: Tier) -> Vec<Case> {
                     def: RuleDef::Char { parts: vec![CharPart::Range(LitChar::canon('b'), LitChar::canon('c'))], checks_before: 1 },
                 }],
             ));
+            // a checked @char rule used as an alternative of another @char rule (H itself carries no check)
+            v.push((
+                "char-nested",
+                vec![
+                    Rule::chr("H", vec![CharPart::Ident("Inner".into()), CharPart::Char(LitChar::canon(' '))]),
+                    Rule {
+                        name: "Inner".into(),
+                        directives: vec![chk("chkc0")],
+                        def: RuleDef::Char { parts: vec![CharPart::Range(LitChar::canon('b'), LitChar::canon('c'))], checks_before: 1 },
+                    },
+                ],
+            ));
             v.push(("extern", vec![Rule::ext("H", "hrt::user::tok", None)]));
             v.push(("extern-typed", vec![Rule::ext("H", "hrt::user::tokt", Some("hrt::user::Tok"))]));
         } else {
@@ -741,6 +753,15 @@ pub fn c19(tier: Tier) -> Vec<Case> {
     for (g, names) in memo_bases(Tier::Quick) {
         for mask in [0u32, 3, 7] {
             b.add("trace/memo", with_memo(&g, &names, mask), memo_inputs(Tier::Quick));
+        }
+    }
+    // user-defined Whitespace rules (they are ordinary traced rules, entered before every token)
+    for (i, c) in super::e1::c08(Tier::Quick).into_iter().enumerate() {
+        if c.family.ends_with("/user") && i % 7 == 0 {
+            let inputs = InputSpec::Strings { alphabet: vec!['b', 'c', '_', '#', '\n'], max_len: 3 };
+            if b.add("trace/user-whitespace", c.grammar, inputs) {
+                b.last().note = "indented-all".into();
+            }
         }
     }
     // deep nesting: many rule entries open at once
@@ -830,6 +851,17 @@ pub fn c20(tier: Tier) -> Vec<Case> {
     // skipping rules and whitespace in the inputs (hidden state in whitespace handling)
     for (g, names) in memo_bases_mixed_skip(Tier::Quick).into_iter().step_by(13).take(n / 4) {
         b.add("pure/memo-skip", with_memo(&g, &names, 7), InputSpec::Strings { alphabet: vec!['b', 'x', ' '], max_len: 3 });
+    }
+    // extern rules reached at offsets > 0, with positions everywhere (the extern functions are scheduling points)
+    for body in [seq(vec![lit("b"), field("t", "T"), opt(field("f", "X"))]), seq(vec![star(field("f", "X")), field("t", "T"), opt(lit("b"))])] {
+        let g = Grammar {
+            rules: vec![
+                Rule::normal("Root", vec![Directive::Export, Directive::NoSkipWs, Directive::Position], body),
+                Rule::normal("X", vec![Directive::NoSkipWs, Directive::Position], seq(vec![lit("c"), opt(field("u", "T"))])),
+                Rule::ext("T", "hrt::user::tok", None),
+            ],
+        };
+        b.add("pure/extern", g, InputSpec::Strings { alphabet: vec!['b', 'c', 'x'], max_len: 3 });
     }
     // a parse that nests deeper than any plausible fixed limit, before and after shallow ones
     for g in nested_grammars().into_iter().take(1) {
